@@ -109,7 +109,7 @@ Lemma hinv_links_eq : forall D h h', hinv D h -> links_eq h h' ->
   (forall a c', findw h' a = Some c' -> ~ In a D -> 1 <= w_ref c') -> hinv D h'.
 Proof.
   intros D h h' HI L Href.
-  destruct HI as [K P PL O F R C I RP Q Dg NW NQ].
+  destruct HI as [K P PL O F R C I RP Q Dg NW NWR NQ].
   constructor.
   - intros a c' Hf'. destruct (links_eq_find_rev h h' a c' L Hf') as [c [Hf [_ [Hfi _]]]].
     destruct (K a c Hf) as [l [Hc Hl]]. exists l. split.
@@ -140,6 +140,7 @@ Proof.
       exists x, p, cx'. repeat split; auto; try congruence. eapply links_eq_anc; eauto.
   - rewrite (le_drag h h' L). exact Dg.
   - intros a Ha. rewrite (le_nextw h h' L). apply NW. intro Hn. apply Ha. apply (links_eq_none h h' a L). exact Hn.
+  - rewrite (le_nextw h h' L). exact NWR.
   - intros q Hq'. rewrite (le_nextq h h' L). apply NQ. rewrite <- (le_reqs h h' L). exact Hq'.
 Qed.
 
